@@ -658,6 +658,13 @@ class Run:
             # a node that never comes to rest after a fault is reported through its threads, if any died
             for ex in c.h.thread_exc:
                 self.witness(f"thread_exception.{ex['type']}:{c.role_of(ex['thread'])}", {"exc": ex, **c.spec}, c.spec)
+            # ... or is stuck: the I/O thread alive, not in select(), sitting in library code after the watchdog
+            import time as _t
+            st1 = c.h.io_blocked_stack()
+            _t.sleep(0.3)
+            st2 = c.h.io_blocked_stack()
+            if st1 and st1 == st2:
+                self.witness("node_thread_blocked:io", {"stack": st1, **c.spec}, c.spec)
         self.evals += 1
         sp = c.spec
         self.cov["faults_delivered" if c.delivered_fault else "faults_not_delivered"] += 1
